@@ -1,7 +1,7 @@
 (* C18 property theorems: ONLY statements closed by `exact`, each followed by Print Assumptions.
    Model: C18_Model.v (literal transcription of path.cc / stringutility.hh); spec: C18_Spec.v. *)
 From Coq Require Import List Arith Bool Ascii.
-From DuneV Require Import Params_gen C18_Model C18_Spec C18_Proofs_Str C18_Proofs_Passes C18_Proofs_Pass4 C18_Proofs C18_Proofs_Tables C18_Proofs_Pretty C18_Proofs_Rel.
+From DuneV Require Import Params_gen C18_Model C18_Spec C18_Proofs_Str C18_Proofs_Passes C18_Proofs_Pass4 C18_Proofs C18_Proofs_Tables C18_Proofs_Pretty C18_Proofs_Rel C18_Proofs_More.
 Import ListNotations.
 Local Open Scope char_scope.
 
@@ -72,6 +72,69 @@ Theorem C18_relative_inverse : forall base p,
 Proof. exact c18_relative_inverse. Qed.
 Print Assumptions C18_relative_inverse.
 
+(* string-level round trip: concat(base, relative(base, p)) sanitises to the same string as p *)
+Theorem C18_relative_roundtrip : forall base p r, c18_relativePath base p = C18_Ok r ->
+  c18_processPath (c18_concatPaths base r) = c18_processPath p.
+Proof. exact c18_relative_roundtrip. Qed.
+Print Assumptions C18_relative_roundtrip.
+
+(* the exception payload: which of the two NotImplemented texts (re-read from path.cc) is thrown, quoting the
+   ORIGINAL newbase and p verbatim; the message-carrying model agrees with c18_relativePath *)
+Theorem C18_relative_errors : forall base p,
+  match c18_relativePath_msg base p with
+  | C18_Result r => c18_relativePath base p = C18_Ok r
+  | C18_Throw m => c18_relativePath base p = C18_NotImplemented
+                   /\ c18_spec_rel_defined base p = false /\ m = c18_spec_rel_message base p
+  | C18_Fuel => False
+  end.
+Proof. exact c18_relativePath_msg_agrees. Qed.
+Print Assumptions C18_relative_errors.
+
+(* two paths denote the same location iff they sanitise to the same string *)
+Theorem C18_denote_iff_same_sanitised : forall p q, c18_denote p = c18_denote q <-> c18_processPath p = c18_processPath q.
+Proof. exact (fun p q => conj (c18_canon_of_denote p q) (c18_denote_of_canon p q)). Qed.
+Print Assumptions C18_denote_iff_same_sanitised.
+
+(* the documented normal forms are exactly the fixed points of processPath *)
+Theorem C18_normal_form_fixpoint : forall s, C18_NormalForm s <-> c18_processPath s = C18_Ok s.
+Proof. exact c18_normal_form_fixpoint. Qed.
+Print Assumptions C18_normal_form_fixpoint.
+
+(* path.hh on concatPaths: "If both base and p are sanitized as per processPath(), and if p does not contain any
+   leading "../", then the result will also be sanitized." *)
+Theorem C18_concat_sanitized : forall base p,
+  C18_NormalForm base -> C18_NormalForm p -> c18_hasPrefix p ["."; "."; "/"] = false ->
+  C18_NormalForm (c18_concatPaths base p).
+Proof. exact c18_concat_sanitized. Qed.
+Print Assumptions C18_concat_sanitized.
+
+(* prettyPath's trailing '/': added for isDirectory exactly when the path has an ordinary last component
+   (a component that merely ENDS in ".." such as "a.." is ordinary); never after a final ".." and not for "." or "/" *)
+Theorem C18_pretty_trailing_slash : forall p,
+  let '(abs, u, cs) := c18_denote p in
+  (cs <> [] -> exists x, c18_prettyPath p true = C18_Ok (x ++ ["/"]) /\ c18_prettyPath p false = C18_Ok x)
+  /\ (cs = [] -> c18_prettyPath p true = c18_prettyPath p false).
+Proof. exact c18_pretty_trailing_slash. Qed.
+Print Assumptions C18_pretty_trailing_slash.
+
+(* pretty printing preserves the location (any flag), hence is idempotent *)
+Theorem C18_pretty_denote : forall p d r, c18_prettyPath p d = C18_Ok r ->
+  c18_denote r = c18_denote p /\ c18_prettyPath r d = C18_Ok r.
+Proof. exact (fun p d r H => conj (c18_pretty_denote p d r H) (c18_pretty_idempotent p d r H)). Qed.
+Print Assumptions C18_pretty_denote.
+
+(* the executable oracles applied to the implementation's output by the correspondence check ARE the stated predicates *)
+Theorem C18_oracles_exact : forall s a b,
+  (c18_nf s = true <-> C18_NormalForm s) /\ (c18_eq_loc a b = true <-> a = b).
+Proof. exact (fun s a b => conj (c18_nf_iff s) (c18_eq_loc_iff a b)). Qed.
+Print Assumptions C18_oracles_exact.
+
+(* the assertions written as comments between the passes of processPath hold for every input *)
+Theorem C18_pass_invariants : forall p, exists cs,
+  c18_pre4 p = c18_join cs /\ Forall c18_sf cs /\ Forall c18_pushable (tl cs) /\ hd [] cs <> ["."].
+Proof. exact c18_pre4_structure. Qed.
+Print Assumptions C18_pass_invariants.
+
 (* prefix / suffix tests are the plain definitions *)
 Theorem C18_prefix_suffix : forall s x,
   (c18_hasPrefix s x = true <-> exists t, s = x ++ t) /\ (c18_hasSuffix s x = true <-> exists t, s = t ++ x).
@@ -95,6 +158,17 @@ Theorem C18_format_error : forall F,
   c18_formatString_err None = None /\ c18_formatString_err (Some F) = Some (c18_cstr F).
 Proof. exact c18_formatString_err_correct. Qed.
 Print Assumptions C18_format_error.
+
+(* the length boundary: the first attempt into the stack buffer gives F exactly while |F| < bufferSize; from
+   |F| = bufferSize on it is F cut to bufferSize-1 characters (so the heap retry is necessary), and the result is F *)
+Theorem C18_format_boundary : forall F, c18_nulfree F ->
+  let B := c18_param_format_buffer in
+  let first_attempt := c18_cstr (snd (c18_snprintf B F)) in
+  (length F < B -> first_attempt = F)
+  /\ (B <= length F -> first_attempt = firstn (B - 1) F /\ first_attempt <> F)
+  /\ c18_formatString F = F.
+Proof. exact c18_format_boundary. Qed.
+Print Assumptions C18_format_boundary.
 
 Theorem C18_format_any_buffer : forall n F, 1 <= n -> c18_formatString_n n F = c18_cstr F.
 Proof. exact c18_formatString_n_cstr. Qed.
@@ -127,3 +201,25 @@ Proof. vm_compute; split; reflexivity. Qed.
 Example C18_example_relative_sweep :   (* the former bounded theorem, kept as a cross-check of spec oracle vs model: all 341^2 pairs *)
   forallb (fun a => forallb (fun b => c18_rel_check a b) (c18_strings c18_path_alpha 4)) (c18_strings c18_path_alpha 4) = true.
 Proof. exact c18_relative_sweep. Qed.
+Example C18_example_pretty_ends_in_dotdot :   (* "x/a.." is an ordinary last component: gets the '/'; "x/.." does not *)
+  c18_prettyPath ["x";"/";"a";".";"."] true = C18_Ok ["x";"/";"a";".";".";"/"]
+  /\ c18_prettyPath [".";".";"/";"."; "."] true = C18_Ok [".";".";"/";".";"."]
+  /\ c18_denote ["x";"/";"a";".";"."] = (false, 0, [["x"]; ["a";".";"."]]).
+Proof. vm_compute; repeat split; reflexivity. Qed.
+Example C18_example_roundtrip :   (* base "/usr/lib64/x", target "/usr/lib": "../../lib/" and back *)
+  c18_relativePath ["/";"l";"i";"b";"6";"4";"/";"x"] ["/";"l";"i";"b"] = C18_Ok [".";".";"/";".";".";"/";"l";"i";"b";"/"]
+  /\ c18_processPath (c18_concatPaths ["/";"l";"i";"b";"6";"4";"/";"x"] [".";".";"/";".";".";"/";"l";"i";"b";"/"]) = C18_Ok ["/";"l";"i";"b";"/"].
+Proof. vm_compute; split; reflexivity. Qed.
+Example C18_example_error_message :
+  c18_relativePath_msg ["a"] ["/"] = C18_Throw (c18_msg_abs ["a"] ["/"])
+  /\ c18_relativePath_msg [".";"."] ["b"] = C18_Throw (c18_msg_up [".";"."] ["b"])
+  /\ length (c18_msg_up [".";"."] ["b"]) = 78.
+Proof. vm_compute; repeat split; reflexivity. Qed.
+Example C18_example_concat_sanitized :
+  c18_nf ["/";"a";"/"] = true /\ c18_nf ["b";"/"] = true /\ c18_nf (c18_concatPaths ["/";"a";"/"] ["b";"/"]) = true
+  /\ c18_nf (c18_concatPaths ["a";"/"] [".";".";"/"]) = false.   (* the premise "no leading ../" is needed: "a/../" is not sanitised *)
+Proof. vm_compute; repeat split; reflexivity. Qed.
+Example C18_doc_tables :   (* every row of the example tables of path.hh (processPath, prettyPath, concatPaths) and of pathtest.cc (relativePath) *)
+  c18_doc_tables_hold = true
+  /\ (length c18_doc_process_table, length c18_doc_pretty_table, length c18_doc_concat_table, length c18_doc_relative_table) = (16, 32, 12, 14).
+Proof. vm_compute; split; reflexivity. Qed.
